@@ -99,6 +99,10 @@ check('C19', progs=[('chk_C19', [1])], level='exploration',
 check('C20', progs=[('chk_C20', [1])], level='exploration', extra=ENG,
       floors={'streams': 10000, 'units_style_checked': 50000, 'units_crlf': 10000})
 
+check('C16', progs=[('chk_C16', [2, 3])], level='fault_enumeration',
+      floors={'faulty_runs': 20000, 'lock_faults': 10000, 'unlock_faults': 10000},
+      evaluations_from=['faulty_runs', 'fault_free_histories'])
+
 # ----------------------------------------------------------------------------- helpers
 def log(*a):
     print(*a, flush=True)
@@ -222,7 +226,7 @@ def run_shards(variants, tier, seed, wdir, replay_dir, scale=1, san=False, timeo
                     agg.cases += 1
     return agg
 
-def report_and_exit(pid, tier, seed, level, agg, t0, floors, rule, assumptions, extra_cov=None, extra_viol=None):
+def report_and_exit(pid, tier, seed, level, agg, t0, floors, rule, assumptions, extra_cov=None, extra_viol=None, evaluations=None):
     known = load_known()
     viols = list(agg.violations) + (extra_viol or [])
     new, knownhits = [], {}
@@ -243,7 +247,7 @@ def report_and_exit(pid, tier, seed, level, agg, t0, floors, rule, assumptions, 
             log('  key=%s/%s case=%s: %s' % (v['prop'], v['key'], v.get('case'), v.get('msg', '')[:300]))
     ninc = sum(i['count'] for i in agg.inconclusive)
     cov = {
-        'evaluations': agg.cases,
+        'evaluations': evaluations if evaluations is not None else agg.cases,
         'distinct_nontrivial': len(agg.hashes),
         'rule': rule,
         'samples': agg.samples[:8] or ['(none recorded)'],
@@ -305,12 +309,198 @@ def do_check(pid, tier):
     agg = run_shards(variants, tier, seed, os.path.join(bdir, 'work'), os.path.join(ROOT, 'evidence', 'replay'), scale=cfg.get('scale', {}).get(tier, 1))
     rule = run_info(variants[0], tier).get('rule', 'see DESIGN.md section 5, ' + pid)
     shutil.rmtree(os.path.join(bdir, 'work'), ignore_errors=True)
-    report_and_exit(pid, tier, seed, cfg['level'], agg, t0, cfg.get('floors', {}), rule, ASSUME + cfg.get('assume', []), extra_cov=extra_cov)
+    evals = sum(agg.counters.get(k, 0) for k in cfg['evaluations_from']) if 'evaluations_from' in cfg else None
+    report_and_exit(pid, tier, seed, cfg['level'], agg, t0, cfg.get('floors', {}), rule, ASSUME + cfg.get('assume', []), extra_cov=extra_cov, evaluations=evals)
+
+
+# ----------------------------------------------------------------------------- C17: threads + ThreadSanitizer
+def c17_custom(pid, tier, seed, t0):
+    bdir = os.path.join(ROOT, 'build', pid); shutil.rmtree(bdir, ignore_errors=True); os.makedirs(bdir)
+    rdir = os.path.join(ROOT, 'evidence', 'replay'); os.makedirs(rdir, exist_ok=True)
+    src = [os.path.join(HARN, 'mt_stress.c'), os.path.join(REPO, 'src', 'cat.c')]
+    thorough = tier == 'thorough'
+    compilers = [('gcc', 'gcc')] + ([('clang', 'clang')] if thorough else [])
+    bins = {}
+    def comp(job):
+        cc, tag, q, flags = job
+        out = os.path.join(bdir, 'mt-%s-q%d' % (tag, q))
+        r = subprocess.run([cc, '-O1', '-g'] + flags + ['-DCAT_VERIF', '-DCAT_UNSOLICITED_CMD_BUFFER_SIZE=%d' % q, '-I' + os.path.join(REPO, 'src')] + src + ['-o', out, '-lpthread'], capture_output=True, text=True)
+        if r.returncode: raise RuntimeError('compile failed: ' + r.stderr[-2000:])
+        bins[(tag, q)] = out
+    jobs = [(cc, tag, q, ['-fsanitize=thread']) for cc, tag in compilers for q in (1, 2, 3, 8)] + ([('gcc', 'plain', q, []) for q in (2,)] if thorough else [])
+    try:
+        with ThreadPoolExecutor(NCPU) as ex: list(ex.map(comp, jobs))
+    except RuntimeError as e:
+        log(str(e)); sys.exit(2)
+    nseeds = 40 if thorough else 3
+    triggers = 20000
+    runs = [(tag, q, P, seed * 1000 + k) for tag in [t for _, t in compilers] for q in (1, 2, 3, 8) for P in (1, 2, 4, 8) for k in range(nseeds)]
+    env = dict(os.environ, TSAN_OPTIONS='halt_on_error=1:exitcode=66:second_deadlock_stack=1')
+    results, viols, inconc = [], [], []
+    def one(r):
+        tag, q, P, sd = r
+        cmd = [bins[(tag, q)], '--seed', str(sd), '--producers', str(P), '--triggers', str(triggers)]
+        try:
+            pr = subprocess.run(cmd, capture_output=True, text=True, env=env, timeout=600)
+        except subprocess.TimeoutExpired:
+            return ('inconclusive', r, 'timeout')
+        if pr.returncode == 66 or 'WARNING: ThreadSanitizer' in pr.stderr:
+            return ('race', r, pr.stderr)
+        if pr.returncode in (0, 1):
+            try: return ('ok' if pr.returncode == 0 else 'mismatch', r, json.loads(pr.stdout.strip().splitlines()[-1]))
+            except Exception: return ('inconclusive', r, 'unparsable output: ' + pr.stdout[-200:] + pr.stderr[-300:])
+        return ('inconclusive', r, 'rc=%d %s' % (pr.returncode, pr.stderr[-300:]))
+    with ThreadPoolExecutor(max(2, NCPU // 3)) as ex:      # each run has up to 9 threads
+        outs = list(ex.map(one, runs))
+    agg = Agg(); tot = {}
+    import re
+    for kind, r, d in outs:
+        tag, q, P, sd = r
+        agg.cases += 1
+        if kind in ('ok', 'mismatch'):
+            for k, v in d.items():
+                if isinstance(v, int) and k not in ('producers', 'cap', 'seed', 'triggers_per_producer'): tot[k] = tot.get(k, 0) + v
+            if d['handovers'] > 0 and d['refused_full'] > 0: agg.hashes.add(hash((tag, q, P, sd)))
+            if len(agg.samples) < 6 and P >= 2: agg.samples.append('%s-tsan, capacity %d, %d producers x %d triggers, seed %d: accepted %d == delivered %d, %d refused (BUFFER_FULL), %d lock hand-overs between threads, %d contended lock attempts' % (tag, q, P, triggers, sd, d['accepted'], d['delivered'], d['refused_full'], d['handovers'], d['contended_locks']))
+            if kind == 'mismatch' or d.get('bad_lockfree', 0):
+                path = os.path.join(rdir, 'C17-mt_stress-%s-q%d-P%d-s%d.txt' % (tag, q, P, sd))
+                open(path, 'w').write(json.dumps({'prog': 'mt_stress', 'tag': tag, 'qcap': q, 'producers': P, 'seed': sd, 'triggers': triggers, 'prop': 'C17'}) + '\n' + json.dumps(d, indent=1))
+                viols.append({'prop': 'C17', 'key': 'delivered-not-accepted' if kind == 'mismatch' else 'lock-free-query-wrong', 'case': '%s q%d P%d seed %d' % (tag, q, P, sd), 'msg': 'per producer [accepted, refused, delivered] = %s' % d['per_producer'], 'replay': path})
+        elif kind == 'race':
+            funcs = re.findall(r'#\d+ (\w+) .*cat\.c', d)
+            key = 'data-race:' + (funcs[0] if funcs else 'unknown')
+            path = os.path.join(rdir, 'C17-mt_stress-%s-q%d-P%d-s%d.txt' % (tag, q, P, sd))
+            open(path, 'w').write(json.dumps({'prog': 'mt_stress', 'tag': tag, 'qcap': q, 'producers': P, 'seed': sd, 'triggers': triggers, 'prop': 'C17'}) + '\n' + d[-12000:])
+            viols.append({'prop': 'C17', 'key': key, 'case': '%s q%d P%d seed %d' % (tag, q, P, sd), 'msg': 'ThreadSanitizer report with a frame in cat.c: ' + ', '.join(funcs[:4]), 'replay': path})
+        else:
+            agg.inconclusive.append({'count': 1, 'why': str(d)[:300], 'prog': 'mt_stress', 'qcap': q})
+    extra = {'thread_runs': len(runs), 'totals': tot, 'sanitizer_builds': [t for _, t in compilers]}
+    if thorough:   # helgrind on a reduced plain run
+        hr = subprocess.run(['valgrind', '--tool=helgrind', '--error-exitcode=67', '-q', bins[('plain', 2)], '--seed', str(seed), '--producers', '2', '--triggers', '300'], capture_output=True, text=True, timeout=1800)
+        extra['helgrind'] = {'rc': hr.returncode, 'reports_with_cat_frames': hr.stderr.count('cat.c')}
+        if hr.returncode == 67 and 'cat.c' in hr.stderr:
+            path = os.path.join(rdir, 'C17-helgrind-s%d.txt' % seed); open(path, 'w').write(json.dumps({'prog': 'mt_stress', 'tag': 'helgrind', 'prop': 'C17'}) + '\n' + hr.stderr[-12000:])
+            viols.append({'prop': 'C17', 'key': 'helgrind-report', 'case': 'helgrind', 'msg': 'helgrind report with a frame in cat.c', 'replay': path})
+    agg.counters = {'lock_handovers': tot.get('handovers', 0), 'buffer_full_answers': tot.get('refused_full', 0), 'triggers_accepted': tot.get('accepted', 0), 'events_delivered': tot.get('delivered', 0),
+                    'contended_lock_attempts': tot.get('contended_locks', 0), 'holds_entered': tot.get('holds_entered', 0), 'lock_calls': tot.get('lock_calls', 0)}
+    rule = 'one case = one multi-threaded run (service thread + 1/2/4/8 producer threads x %d triggers each, real pthread mutex, randomised yields between API calls) under ThreadSanitizer for one queue capacity and seed; non-trivial = the lock changed hands between threads and at least one trigger was refused with BUFFER_FULL; distinct by (build, capacity, producers, seed)' % triggers
+    shutil.rmtree(bdir, ignore_errors=True)
+    report_and_exit(pid, tier, seed, 'exploration', agg, t0, {'lock_handovers': 1000, 'buffer_full_answers': 100, 'triggers_accepted': 1000}, rule,
+                    ['ThreadSanitizer decides only the interleavings that occurred in these runs', 'harness counters are C11 atomics; the hand-over counter is protected by the cAT mutex itself',
+                     'the two documented lock-free queries are called from the service thread only'], extra_cov=extra, extra_viol=viols)
+
+check('C17', custom=c17_custom, progs=[('mt_stress', [1, 2, 3, 8])], level='exploration')
+
+# ----------------------------------------------------------------------------- C03: sanitizers over every generator
+C03_REPLAY = [  # (program, capacities, extra sources, divisor of the random budget)
+    ('chk_C03', [1, 2, 3, 8], ['engine.c'], 1), ('chk_C01', [2], ['engine.c'], 4), ('chk_C02', [1], [], 4), ('chk_C04', [1], ['argcheck.c'], 4), ('chk_C05', [1], ['argcheck.c'], 4),
+    ('chk_C06', [2], [], 4), ('chk_C07', [1], [], 8), ('chk_C08', [2], ['engine.c'], 4), ('chk_C09', [1], [], 4), ('chk_C10', [2], [], 4), ('chk_C11', [3], ['engine.c'], 4),
+    ('chk_C12', [2], ['engine.c'], 8), ('chk_C13', [1, 3], [], 4), ('chk_C14', [2], ['engine.c'], 4), ('chk_C15', [8], ['engine.c'], 4), ('chk_C16', [2], [], 16), ('chk_C18', [2], ['engine.c'], 4),
+    ('chk_C19', [1], [], 4), ('chk_C20', [1], ['engine.c'], 4)]
+
+def san_key(stderr):
+    import re
+    m = re.search(r'ERROR: AddressSanitizer: ([\w-]+)', stderr) or re.search(r'(MemorySanitizer: [\w-]+)', stderr)
+    kind = m.group(1) if m else ('ubsan' if 'runtime error' in stderr else 'sanitizer')
+    if kind == 'ubsan':
+        m2 = re.search(r'runtime error: ([^\n]{0,60})', stderr); kind = 'ubsan:' + (re.sub(r'[^a-z ]', '', m2.group(1).lower()).strip().replace(' ', '-')[:40] if m2 else '')
+    f = re.search(r'#\d+ 0x[0-9a-f]+ in (\w+) [^\n]*cat\.c', stderr) or re.search(r'cat\.c:(\d+)', stderr)
+    return '%s:%s' % (kind, f.group(1) if f else 'unknown')
+
+def c03_custom(pid, tier, seed, t0):
+    bdir = os.path.join(ROOT, 'build', pid); shutil.rmtree(bdir, ignore_errors=True)
+    rdir = os.path.join(ROOT, 'evidence', 'replay')
+    thorough = tier == 'thorough'
+    def mk(cc, flags, tag, only=None):
+        return [{'prog': p, 'qcap': q, 'cc': cc, 'flags': BASE_FLAGS + flags, 'tag': tag, 'extra': ex, 'div': d} for p, caps, ex, d in C03_REPLAY for q in caps if only is None or p in only]
+    sets = [('gcc-asan-ubsan', mk('gcc', SAN_FLAGS, 'gccasan'))]
+    if thorough:
+        sets.append(('clang-asan-ubsan', mk('clang', SAN_FLAGS + ['-fno-sanitize=object-size'], 'clangasan')))
+        sets.append(('clang-msan', mk('clang', ['-fsanitize=memory', '-fsanitize-memory-track-origins', '-fno-omit-frame-pointer', '-DVERIF_MSAN=1'], 'msan', only=['chk_C03', 'chk_C01', 'chk_C06', 'chk_C10', 'chk_C13', 'chk_C19'])))
+    total = Agg(); viols = []; used = []
+    for name, variants in sets:
+        try:
+            variants = build_variants(os.path.join(bdir, name), variants)
+        except RuntimeError as e:
+            log(str(e)); sys.exit(2)
+        agg = run_shards(variants, tier, seed, os.path.join(bdir, name, 'work'), rdir, san=True, timeout=7200)
+        used.append({'build': name, 'programs': len(variants), 'cases': agg.cases})
+        for rep in agg.sanitizer_reports:
+            key = san_key(rep['stderr'])
+            path = os.path.join(rdir, 'C03-%s-%s-q%d-s%d-c%d.txt' % (rep['prog'], rep['tag'], rep['qcap'], seed, rep['case']))
+            open(path, 'w').write(json.dumps({'prog': rep['prog'], 'qcap': rep['qcap'], 'seed': seed, 'case': rep['case'], 'tier': tier, 'prop': 'C03', 'key': key, 'san': 1}) + '\n' + rep['stderr'])
+            viols.append({'prop': 'C03', 'key': key, 'case': '%s q%d case %d (%s)' % (rep['prog'], rep['qcap'], rep['case'], name), 'msg': rep['stderr'].strip().splitlines()[0][:300] if rep['stderr'].strip() else 'sanitizer exit', 'replay': path})
+        # merge
+        total.cases += agg.cases; total.cpu_s += agg.cpu_s; total.hashes |= agg.hashes; total.pairs |= agg.pairs; total.trans |= agg.trans
+        for k, v in agg.counters.items(): total.counters[k] = total.counters.get(k, 0) + v
+        for k, v in agg.io.items(): total.io[k] = total.io.get(k, 0) + v
+        for k in ('cmd', 'event'): total.hc[k] = [a + b for a, b in zip(total.hc[k], agg.hc[k])]
+        total.hc['var_read'] += agg.hc['var_read']; total.hc['var_write'] += agg.hc['var_write']
+        total.samples.extend(agg.samples[:3]); total.violations.extend(agg.violations); total.inconclusive.extend(agg.inconclusive)
+        for k, v in agg.foreign.items(): total.foreign[k] = total.foreign.get(k, 0) + v
+    extra = {'sanitizer_builds': used, 'replayed_generators': sorted({p for p, _, _, _ in C03_REPLAY})}
+    if thorough:
+        extra.update(c03_memcheck(bdir, seed, viols, rdir))
+        extra.update(c03_fuzz(bdir, seed, viols, rdir))
+    rule = run_info(sets[0][1][0], tier).get('rule', '')
+    rule += ' || additionally every other property\'s generator (chk_C01..chk_C20) is replayed on the same sanitizer builds with its own monitors muted'
+    shutil.rmtree(bdir, ignore_errors=True)
+    report_and_exit(pid, tier, seed, 'exploration', total, t0, {'half_compares': 1000000, 'cases_touching_last_byte_of_command_buffer': 10000, 'cases_touching_last_byte_of_event_buffer': 3000}, rule,
+                    ASSUME + ['red-zone sanitizers see adjacent overflows only; the border between the two halves of a shared buffer is covered by the hook-based half comparison',
+                              'assert() failures inside cat.c are defined behaviour and counted inconclusive, not violations'], extra_cov=extra, extra_viol=viols)
+
+def c03_memcheck(bdir, seed, viols, rdir):
+    v = build_variants(os.path.join(bdir, 'memcheck'), [{'prog': 'chk_C03', 'qcap': 2, 'cc': 'gcc', 'flags': BASE_FLAGS, 'tag': 'plain', 'extra': ['engine.c']}])[0]
+    info = run_info(v, 'quick'); lo = info['sweep']
+    r = subprocess.run(['valgrind', '-q', '--error-exitcode=68', '--track-origins=yes', v['bin'], '--seed', str(seed), '--tier', 'quick', '--san', '--from', str(lo), '--to', str(lo + 4000)], capture_output=True, text=True, timeout=7200)
+    if r.returncode == 68:
+        path = os.path.join(rdir, 'C03-memcheck-s%d.txt' % seed); open(path, 'w').write(json.dumps({'prog': 'chk_C03', 'qcap': 2, 'seed': seed, 'prop': 'C03', 'key': 'memcheck', 'san': 1, 'case': lo, 'tier': 'quick'}) + '\n' + r.stderr[-12000:])
+        viols.append({'prop': 'C03', 'key': 'memcheck:' + ('cat.c' if 'cat.c' in r.stderr else 'harness'), 'case': 'memcheck', 'msg': r.stderr.strip().splitlines()[0][:200], 'replay': path})
+    return {'memcheck': {'cases': 4000, 'rc': r.returncode}}
+
+def c03_fuzz(bdir, seed, viols, rdir):
+    fd = os.path.join(bdir, 'fuzz'); os.makedirs(fd, exist_ok=True)
+    out = os.path.join(fd, 'fuzz_target')
+    srcs = [os.path.join(HARN, x) for x in ('fuzz_target.c', 'common.c', 'refmodel.c', 'engine.c')] + [os.path.join(REPO, 'src', 'cat.c')]
+    if not os.path.exists(srcs[0]): return {'libfuzzer': 'no fuzz target'}
+    r = subprocess.run(['clang', '-O1', '-g', '-fsanitize=fuzzer,address,undefined', '-fno-sanitize-recover=all', '-fno-sanitize=object-size', '-DCAT_VERIF', '-DCAT_UNSOLICITED_CMD_BUFFER_SIZE=2', '-DVERIF_FUZZ=1',
+                        '-I' + os.path.join(REPO, 'src'), '-I' + HARN] + srcs + ['-o', out], capture_output=True, text=True)
+    if r.returncode: log('fuzz target does not compile: ' + r.stderr[-1500:]); sys.exit(2)
+    corpus = os.path.join(fd, 'corpus'); os.makedirs(corpus, exist_ok=True)
+    seedc = os.path.join(ROOT, 'corpus')
+    if os.path.isdir(seedc):
+        for f in os.listdir(seedc)[:2000]: shutil.copy(os.path.join(seedc, f), corpus)
+    runs = 2000000
+    env = dict(os.environ, ASAN_OPTIONS='detect_leaks=0:quarantine_size_mb=8')
+    pr = subprocess.run([out, corpus, '-runs=%d' % runs, '-jobs=%d' % NCPU, '-workers=%d' % NCPU, '-max_len=600', '-seed=%d' % seed, '-artifact_prefix=' + fd + '/', '-print_final_stats=1'], capture_output=True, text=True, cwd=fd, env=env, timeout=7200)
+    crashes = [f for f in os.listdir(fd) if f.startswith('crash-') or f.startswith('timeout-') or f.startswith('oom-')]
+    execs = 0
+    for f in os.listdir(fd):
+        if f.startswith('fuzz-') and f.endswith('.log'):
+            import re
+            m = re.findall(r'stat::number_of_executed_units: (\d+)', open(os.path.join(fd, f), errors='replace').read())
+            if m: execs += int(m[-1])
+    for c in crashes[:5]:
+        rr = subprocess.run([out, os.path.join(fd, c)], capture_output=True, text=True, env=env)
+        path = os.path.join(rdir, 'C03-fuzz-' + c); shutil.copy(os.path.join(fd, c), path)
+        viols.append({'prop': 'C03', 'key': 'fuzz:' + san_key(rr.stderr), 'case': c, 'msg': (rr.stderr.strip().splitlines() or ['crash'])[0][:200], 'replay': path})
+    return {'libfuzzer': {'executions': execs, 'corpus_files': len(os.listdir(corpus)), 'artifacts': len(crashes)}}
+
+check('C03', custom=c03_custom, progs=[(p, c) for p, c, _, _ in C03_REPLAY], level='exploration')
 
 # ----------------------------------------------------------------------------- replay
 def do_replay(path):
     hdr = json.loads(open(path).readline())
     pid = hdr['prop']
+    if hdr.get('prog') == 'mt_stress':
+        bdir = os.path.join(ROOT, 'build', 'replay'); shutil.rmtree(bdir, ignore_errors=True); os.makedirs(bdir)
+        out = os.path.join(bdir, 'mt'); cc = 'clang' if hdr.get('tag') == 'clang' else 'gcc'
+        subprocess.check_call([cc, '-O1', '-g', '-fsanitize=thread', '-DCAT_VERIF', '-DCAT_UNSOLICITED_CMD_BUFFER_SIZE=%d' % hdr.get('qcap', 2), '-I' + os.path.join(REPO, 'src'), os.path.join(HARN, 'mt_stress.c'), os.path.join(REPO, 'src', 'cat.c'), '-o', out, '-lpthread'])
+        bad = 0
+        for k in range(5):    # thread schedules are not replayable (no rr here): repeat the same workload a few times
+            r = subprocess.run([out, '--seed', str(hdr.get('seed', 1)), '--producers', str(hdr.get('producers', 4)), '--triggers', str(hdr.get('triggers', 20000))], env=dict(os.environ, TSAN_OPTIONS='halt_on_error=1:exitcode=66'))
+            bad += r.returncode != 0
+        log('runs with a report or mismatch: %d of 5' % bad); sys.exit(1 if bad else 0)
     cfg = None
     for p, c in CHECKS.items():
         if any(pr == hdr['prog'] for pr, _ in c.get('progs', [])):
